@@ -17,12 +17,12 @@ def consts(site, wf, sup):
     return dopts, root, holder
 
 
-def histories(rep, wd, combos, maxlen, faults=False, clause=None, label_extra=""):
+def histories(rep, wd, combos, maxlen, faults=False, clause=None, label_extra="", nested=False):
     """TLC enumerates every history of MC_C12 for the given sites; each is replayed against the real library"""
     for site, wf, sup in combos:
         ml = maxlen - 1 if site == "pair" else maxlen          # the pair site has 16 inputs x 4 definitions: one step shorter
-        cfg = core.cfg_text("MC_C12.cfg", Site=f'"{site}"', WithField=wf, Supertypes=sup, MaxLen=ml, Faults=faults)
-        label = f"MC_C12 site={site} field={wf} supertypes={sup} len<={ml}{label_extra}: VariantChoice RegistrySound NoInheritedTag"
+        cfg = core.cfg_text("MC_C12.cfg", Site=f'"{site}"', WithField=wf, Supertypes=sup, MaxLen=ml, Faults=faults, Nested=nested)
+        label = f"MC_C12 site={site} field={wf} supertypes={sup} nested={nested} len<={ml}{label_extra}: VariantChoice RegistrySound NoInheritedTag"
         if faults:
             r = core.run_mc_with_table("MC_C12", wd, [(["int"], [["str", "bad"]])], cfg=cfg, rep=rep, label=label, timeout=3000)
         else:
@@ -64,6 +64,8 @@ def run(prop, tier, seed):
     combos = [(s, wf, sup) for s in ("config", "field", "codec") for wf in (True, False) for sup in (False, True)
               if not (s == "config" and sup)] + [("pair", True, False)]
     histories(rep, wd, combos, maxlen)
+    # two dispatch levels: a variant that declares its own class-level discriminator on another field
+    histories(rep, wd, [(s, True, False) for s in ("config", "field", "codec")], maxlen, nested=True, label_extra=" nested levels")
     if tier != "quick":
         histories(rep, wd, [(s, True, False) for s in ("config", "field", "codec")], maxlen, faults=True, label_extra=" fault alphabet")
     # sensitivity of the model property: the deviant walk (direct subclasses only) must be refuted by TLC
